@@ -134,6 +134,7 @@ fixed = [
     ("C14", "93ae93f", "persistent_process_main's SIGTERM handler set the stop event the parent shares between all workers: one terminated worker stopped its siblings, and every replacement started with the event already set and exited at once (C14/R4 sets-only-this-workers-event; noted by a seeding agent, reproduced with real processes in findings/repro/r18_sigterm_stops_all_workers.py)"),
     ("C16", "4fb5a9d", "MemStateBackend.purge kept this app's entry in the class-level app-info registry while the SQLite purge empties the app_info table (C16/R4 purge-coverage::MemStateBackend::_app_info_registry; formerly a known finding - the repair removes only the own app's entry, cf. seed C17-2)"),
     ("C13", "45db215", "SQLiteTrigger._register_condition was INSERT OR REPLACE with two of the three columns: registering a condition again (every runner at start-up) reset last_cron_execution and the current cron tick fired a second time; the in-memory trigger kept the value (C13/R12 replace-keeps-maintained-columns; noted by two seeding agents, findings/repro/r19_cron_reregistration_resets.py)"),
+    ("C16", "8c23fe6", "SQLiteStateBackend.purge kept _runner_context_cache, the process-local cache that gates store_runner_context: after a purge the context was never written again and other processes missed it; MemStateBackend.purge clears it (C16/R4 purge-clears-write-gating-cache; noted by a seeding agent, findings/repro/r20_sqlite_purge_keeps_gating_cache.py)"),
     ("C12", "02fb446", "calculate_time_slot computed a window's end as start + slot - margin: with margin 0 the rounded end could exceed the next window's rounded start by one ulp, two runners authorised at one instant, e.g. N=7, 6 min (C12/R6; findings/repro/r15_slot_rounding.py)"),
 ]
 out = {
